@@ -136,23 +136,220 @@ theorem GoodAtom.simple (h : GoodAtom env A tight a) (n : Nat) (rest : Input)
     (hr : Stop tight rest = true) :
     simpleL env (lowerOf env n) (A.txt a ++ rest) =
       .ok ({ node := A.node a, ty := .bool }, rest) := by
-  unfold simpleL
-  simp only [h.noParen rest, h.noUnary rest hr, h.noQuant rest hr, h.parses n rest hr]
+  rw [simpleL_noUnary env _ (h.noParen rest) (h.noUnary rest hr) (h.noQuant rest hr)]
+  exact h.parses n rest hr
 
 end atoms
 
 /-! ### `not`, parentheses -/
 
-theorem simpleL_unary (env : PEnv) (lw : Level) (al : String) (hal : (al, ()) ∈ unaryOps)
-    (x : Input) :
-    simpleL env (some lw) (al.toList ++ x) =
-      match lw.simple (skipSpace x) with
-      | .error e => .error e
-      | .ok (e, r) => .ok ({ node := .unaryNot e.node, ty := e.ty }, r) := by
+/-! #### the maximal run of name characters, and `Identifier::lex_with` -/
+
+theorem nameRun_nil_of_not_glued {x : Input} (h : gluedTo x = false) : nameRun x = [] := by
+  cases x with
+  | nil => rfl
+  | cons c cs =>
+    simp only [gluedTo] at h
+    simp [nameRun, h]
+
+/-- a run of name characters is copied -/
+theorem nameRun_append_all {a : Input} (ha : ∀ c ∈ a, (isIdentChar c || c == '.') = true)
+    (x : Input) : nameRun (a ++ x) = a ++ nameRun x := by
+  induction a with
+  | nil => rfl
+  | cons c cs ih =>
+    have hc := ha c (by simp)
+    simp only [List.cons_append, nameRun, hc, if_true]
+    rw [ih (fun d hd => ha d (by simp [hd]))]
+
+/-- a continuation that does not go on with a name character does not extend the run -/
+theorem nameRun_append_stop (t : Input) {rest : Input} (h : gluedTo rest = false) :
+    nameRun (t ++ rest) = nameRun t := by
+  induction t with
+  | nil => rw [List.nil_append, nameRun_nil_of_not_glued h]; rfl
+  | cons c cs ih =>
+    simp only [List.cons_append, nameRun]
+    split
+    · rw [ih]
+    · rfl
+
+/-- the run ends inside a text that contains a character which is no name character -/
+theorem nameRun_append_mem {t : Input} {d : Char} (hd : d ∈ t)
+    (hn : (isIdentChar d || d == '.') = false) (rest : Input) :
+    nameRun (t ++ rest) = nameRun t := by
+  induction t with
+  | nil => cases hd
+  | cons c cs ih =>
+    simp only [List.cons_append, nameRun]
+    split
+    · rename_i hc
+      rcases List.mem_cons.mp hd with rfl | hd'
+      · rw [hn] at hc; cases hc
+      · rw [ih hd']
+    · rfl
+
+theorem spanWhile_snd_head (p : Char → Bool) (i : Input) :
+    ∀ c, (spanWhile p i).2.head? = some c → p c = false := by
+  induction i with
+  | nil => intro c h; cases h
+  | cons d ds ih =>
+    intro c h
+    simp only [spanWhile] at h
+    split at h
+    · exact ih c h
+    · rename_i hp
+      simp only [List.head?_cons, Option.some.injEq] at h
+      subst h
+      simpa using hp
+
+theorem takeWhile1_ok_rest {p : Char → Bool} {i a b : Input} (h : takeWhile1 p i = .ok (a, b)) :
+    ∀ c, b.head? = some c → p c = false := by
+  unfold takeWhile1 at h
+  have hs := spanWhile_snd_head p i
+  split at h
+  · cases h
+  · next x y hne heq =>
+    simp only [Except.ok.injEq, Prod.mk.injEq] at h
+    rw [heq] at hs
+    rw [← h.2]
+    exact hs
+
+/-- **the identifier loop reads the maximal run of name characters** (when it succeeds) -/
+theorem identRest_nameRun : ∀ (f : Nat) (input rest : Input) (u : Unit),
+    identRest f input = .ok (u, rest) → ∃ name, input = name ++ rest ∧ nameRun input = name
+  | 0, _, _, _, h => by simp [identRest, errAt] at h
+  | f + 1, input, rest, u, h => by
+    unfold identRest at h
+    split at h
+    · cases h
+    · rename_i a b htw
+      obtain ⟨hab, _, hall⟩ := takeWhile1_ok htw
+      have hb := takeWhile1_ok_rest htw
+      have hall' : ∀ c ∈ a, (isIdentChar c || c == '.') = true := fun c hc => by
+        rw [hall c hc]; rfl
+      split at h
+      · rename_i r2 hdot
+        obtain ⟨name2, h2, hrun2⟩ := identRest_nameRun f r2 rest u h
+        have hbdot : b = '.' :: r2 := expect_eq_some.mp hdot
+        refine ⟨a ++ '.' :: name2, ?_, ?_⟩
+        · rw [← hab, hbdot, h2]; simp
+        · rw [← hab, hbdot, nameRun_append_all hall']
+          simp only [nameRun, show (isIdentChar '.' || '.' == '.') = true by decide, if_true, hrun2]
+      · rename_i hdot
+        simp only [Except.ok.injEq, Prod.mk.injEq] at h
+        obtain ⟨_, rfl⟩ := h
+        refine ⟨a, hab.symm, ?_⟩
+        have hg : gluedTo b = false := by
+          cases b with
+          | nil => rfl
+          | cons c cs =>
+            have h1 := hb c rfl
+            have h2 : c ≠ '.' := by
+              rintro rfl
+              simp [expect, stripPrefix] at hdot
+            simp [gluedTo, h1, h2]
+        rw [← hab, nameRun_append_all hall', nameRun_nil_of_not_glued hg, List.append_nil]
+
+/-- `Identifier::lex_with` succeeds only if the maximal run of name characters is registered -/
+theorem lexIdentifier_ok_nameRun {s : Scheme} {input : Input} {id : Ident} {r : Input}
+    (h : lexIdentifier s input = .ok (id, r)) : s.get (nameRun input) = some id := by
+  unfold lexIdentifier at h
+  split at h
+  · cases h
+  · rename_i u rest hid
+    obtain ⟨name, hin, hrun⟩ := identRest_nameRun _ _ _ _ hid
+    have ht : input.take (input.length - rest.length) = name := by
+      rw [hin]; simp
+    rw [hrun]
+    cases hget : s.get name with
+    | none => simp [ht, hget, errSpan] at h
+    | some id' =>
+      simp only [ht, hget, Except.ok.injEq, Prod.mk.injEq] at h
+      rw [h.1]
+
+theorem isRegistered_false_of_get {s : Scheme} {input : Input}
+    (h : s.get (nameRun input) = none) : isRegistered s input = false := by
+  unfold isRegistered
+  split
+  · rename_i p hp
+    obtain ⟨id, r⟩ := p
+    rw [lexIdentifier_ok_nameRun hp] at h
+    cases h
+  · rfl
+
+/-- a space is no name character -/
+theorem gluedTo_space {c : Char} (hc : isSpace c = true) (cs : Input) :
+    gluedTo (c :: cs) = false := by
+  have : c = ' ' ∨ c = '\r' ∨ c = '\n' := by simpa [isSpace, or_assoc] using hc
+  rcases this with rfl | rfl | rfl <;> (rw [gluedTo_cons]; decide)
+
+/-- what an atom stops at is no name character -/
+theorem gluedTo_stop {tight : Bool} {rest : Input} (h : Stop tight rest = true) :
+    gluedTo rest = false := by
+  cases rest with
+  | nil => rfl
+  | cons c cs =>
+    have hc : c = ' ' ∨ c = '\r' ∨ c = '\n' ∨ c = ')' ∨ c = '&' ∨ c = '|' ∨ c = '^' := by
+      simp only [Stop, isSpace, symStart, Bool.or_eq_true, Bool.and_eq_true, decide_eq_true_eq,
+        beq_iff_eq] at h
+      rcases h with ((((h | h) | h) | h) | ⟨_, ((h | h) | h)⟩) <;> simp [h]
+    rcases hc with rfl | rfl | rfl | rfl | rfl | rfl | rfl <;> (rw [gluedTo_cons]; decide)
+
+theorem gluedTo_append {t : Input} (ht : Solid t) (x : Input) : gluedTo (t ++ x) = gluedTo t := by
+  obtain ⟨c, cs, rfl, _⟩ := ht
+  rfl
+
+/-- **`lex_unary_op` on a rendered operator**: any alias, any layout, glued only where `glueOk`
+allows; `hrun` = the continuation does not extend the run of name characters of the operand -/
+theorem lexUnary_rendered (env : PEnv) {al : String} (hal : (al, ()) ∈ unaryOps)
+    {ws t rest : Input} (hws : Layout ws = true) (hg : glueOk env al ws t = true)
+    (ht : Solid t) (hrun : nameRun (t ++ rest) = nameRun t) :
+    lexUnary env (al.toList ++ (ws ++ (t ++ rest))) = some ((), ws ++ (t ++ rest)) := by
   simp only [unaryOps, List.mem_cons, Prod.mk.injEq, and_true, List.not_mem_nil, or_false] at hal
   rcases hal with rfl | rfl
-  · exact simpleL_not env lw x
-  · exact simpleL_bang env lw x
+  · refine (lexUnary_eq_some_iff env _ _ ()).mpr (.inr ⟨rfl, ?_⟩)
+    cases ws with
+    | cons w ws' => exact .inl (gluedTo_space (layout_iff.mp hws w (by simp)) _)
+    | nil =>
+      simp only [glueOk, List.isEmpty_nil, Bool.not_true, Bool.false_or, bne_self_eq_false,
+        Bool.or_eq_true, Bool.not_eq_true', Option.isNone_iff_eq_none] at hg
+      rw [List.nil_append]
+      rcases hg with hg | hg
+      · left; rw [gluedTo_append ht]; exact hg
+      · right
+        apply isRegistered_false_of_get
+        have e : "not".toList ++ (t ++ rest) = ("not".toList ++ t) ++ rest := by simp
+        have hn : ∀ c ∈ "not".toList, (isIdentChar c || c == '.') = true := by decide
+        rw [nameRun_append_all hn, hrun, ← nameRun_append_all hn]
+        exact hg
+  · exact lexUnary_bang env _
+
+/-- for a scheme none of whose names begins with `not`, `glueOk` always holds -/
+theorem glueOk_of_no_not_names (env : PEnv)
+    (h : ∀ name, (env.scheme.get name).isSome = true → "not".toList.isPrefixOf name = false)
+    (al : String) (ws t : Input) : glueOk env al ws t = true := by
+  unfold glueOk
+  by_cases hal : al = "not"
+  · subst hal
+    have hn : ∀ c ∈ "not".toList, (isIdentChar c || c == '.') = true := by decide
+    cases hg : env.scheme.get (nameRun ("not".toList ++ t)) with
+    | none => simp
+    | some id =>
+      have := h _ (by rw [hg]; rfl)
+      rw [nameRun_append_all hn] at this
+      simp at this
+  · simp [hal]
+
+theorem simpleL_unary (env : PEnv) (lw : Level) (al : String) (hal : (al, ()) ∈ unaryOps)
+    {ws t rest : Input} (hws : Layout ws = true) (hg : glueOk env al ws t = true)
+    (ht : Solid t) (hrun : nameRun (t ++ rest) = nameRun t) :
+    simpleL env (some lw) (al.toList ++ (ws ++ (t ++ rest))) =
+      match lw.simple (skipSpace (ws ++ (t ++ rest))) with
+      | .error e => .error e
+      | .ok (e, r) => .ok ({ node := .unaryNot e.node, ty := e.ty }, r) := by
+  refine simpleL_unaryOp env lw ?_ (lexUnary_rendered env hal hws hg ht hrun)
+  simp only [unaryOps, List.mem_cons, Prod.mk.injEq, and_true, List.not_mem_nil, or_false] at hal
+  rcases hal with rfl | rfl <;> simp [expect, stripPrefix]
 
 theorem unary_solid {al : String} (hal : (al, ()) ∈ unaryOps) (x : Input) :
     Solid (al.toList ++ x) := by
